@@ -227,6 +227,28 @@ Section ExtLag.
     | i :: r => let s' := step c p s i in s' :: trace c p s' r
     end.
 
+  (* value of the variable written to the state (the "x" line of get_state_params): the last computed one *)
+  Definition saved_value (s : state) : T := s_x_old s.
+
+  (* colvar::calc_value at the first evaluation after a state was read: the restart is refused (input error, the module
+     aborts) when the value differs from the saved one by more than width/2 -- only at the first step of the job [fix-C17-3] *)
+  Definition restart_refused (c : config) (x_saved : T) (after_restart : bool) (i : input) : bool :=
+    after_restart && i_running i && Z.eqb (i_step i) 0
+    && nltb O quarter (cv_dist2 c (i_x i) x_saved / (c_width c * c_width c)).
+
+  (* colvar::set_state_params on an object that has already run (state loaded in the same session): coordinate, velocity
+     and the reported ones from the file, after_restart set, the remembered step forgotten [fix-C17-3]; everything else stays *)
+  Definition load_state (x v : T) (s : state) : state :=
+    mkState (Some x) v (s_prev_x s) (s_prev_v s) (-1)%Z (s_x_old s) true
+            (s_ekin s) (s_epot s) (s_ft_rep s) (s_fr s) (s_f s) x v false.
+
+  (* colvarbias::communicate_forces: a bias force F (already times the bias' time-step factor) goes to fb_actual when the bias
+     bypasses the extended coordinate, to fb otherwise: (ordinary, bypassing) *)
+  Definition route_bias (bypass : bool) (F : T) : T * T := if bypass then (zero, F) else (F, zero).
+
+  (* the value a bias evaluates: colvar::actual_value() when it bypasses, value() = x_reported otherwise *)
+  Definition bias_sees (bypass : bool) (x_rep x_actual : T) : T := if bypass then x_actual else x_rep.
+
   (* energy that update_forces_energy() returns and the module adds to the engine's energy *)
   Definition reported_energy (s : state) : T := s_epot s + s_ekin s.
 End ExtLag.
